@@ -70,6 +70,7 @@ def register_inputs(ex, name, v):
 def verify_function(c, seed=0, timeout_ms=20000, only_labels=None):
     res = Result(c.key)
     t0 = time.time()
+    S._qcount[0] = 0
     try:
         tu = astdb.load_tu(c.tu)
         cands = find_function(tu, c)
@@ -291,6 +292,7 @@ def run_scenario(ex, fnode, c, scen):
                           detail='function returned although the contract says it throws')
         elif kind == 'throw' and not c.may_throw:
             ex.oblige('throws', 'nothrow', z3.BoolVal(False), None, props=c.props_for('throws'))
+        S.MODE[0] = 'prove'
         if kind == 'return':
             for fld, tgt in c.binds.items():
                 cur = ex.store['this'].f.get(fld)
@@ -302,6 +304,7 @@ def run_scenario(ex, fnode, c, scen):
         else:
             for lab, e in c.ensures_exc:
                 ex.oblige('ensures_exc', lab, S.spec_eval(e, env_post, ex2), None, props=c.props_for(lab))
+        S.MODE[0] = 'assume'
         # ---- frame: everything reachable by the caller and not in `assigns` is unchanged
         frame_check(ex, c, names, this_path, pre_store, kind, is_ctor)
 
